@@ -167,6 +167,29 @@ def _replay(job):
             if k != want or ds2.filter.all[0]:
                 out.append(("limit events: wrong number selected",
                             "%d vs %d" % (k, want)))
+            # the same dataset, the same limit, the same NUMBER of
+            # eligible events but another set of them: the selection is a
+            # subset of the now eligible events and the one a fresh dataset
+            # in this state gives
+            first = ds2.filter.all.copy()
+            ds2.filter.manual[0] = True
+            ds2.filter.manual[-1] = False
+            ds2.apply_filter()
+            sel = ds2.filter.all
+            ds3 = dclab.new_dataset({"area_um": xa, "deform": yb})
+            ds3.filter.manual[-1] = False
+            ds3.config["filtering"]["limit events"] = n
+            ds3.apply_filter()
+            if int(sel.sum()) != want or sel[-1]:
+                out.append(("limit events: selection after a filter change "
+                            "is not a subset of the eligible events of the "
+                            "requested size", "%s" % sel.astype(int)))
+            elif not np.array_equal(sel, ds3.filter.all):
+                out.append(("limit events: selection depends on earlier "
+                            "applications (not reproducible)",
+                            "%s vs fresh %s (before: %s)" % (
+                                sel.astype(int), ds3.filter.all.astype(int),
+                                first.astype(int))))
         except Exception as exc:
             out.append(("limit events raises " + type(exc).__name__,
                         repr(exc)[:100]))
